@@ -56,7 +56,7 @@ type RoundTripper interface {
 	Close() error
 }
 
-//Transport defines the struct of transport
+// Transport defines the struct of transport
 type Transport struct {
 	connsMu             sync.Mutex
 	once                sync.Once
@@ -103,6 +103,7 @@ func (t *Transport) RoundTrip(addr string, call *Call) *Call {
 		return call
 	}
 	conn.RoundTrip(call)
+	conn.release()
 	conn.lastTime = t.now
 	checkPersistConnErr(call.Error, conn)
 	return call
@@ -126,6 +127,7 @@ func (t *Transport) Go(addr, serviceMethod string, args interface{}, reply inter
 		return call
 	}
 	call := conn.Go(serviceMethod, args, reply, done)
+	conn.release()
 	conn.lastTime = t.now
 	checkPersistConnErr(call.Error, conn)
 	return call
@@ -138,6 +140,7 @@ func (t *Transport) Call(addr, serviceMethod string, args interface{}, reply int
 		return err
 	}
 	err = conn.Call(serviceMethod, args, reply)
+	conn.release()
 	conn.lastTime = t.now
 	checkPersistConnErr(err, conn)
 	return err
@@ -150,6 +153,7 @@ func (t *Transport) CallWithContext(ctx context.Context, addr string, serviceMet
 		return err
 	}
 	err = conn.CallWithContext(ctx, serviceMethod, args, reply)
+	conn.release()
 	conn.lastTime = t.now
 	checkPersistConnErr(err, conn)
 	return err
@@ -162,6 +166,7 @@ func (t *Transport) NewStream(addr, serviceMethod string) (Stream, error) {
 		return nil, err
 	}
 	stream, err := conn.NewStream(serviceMethod)
+	conn.release()
 	conn.lastTime = t.now
 	checkPersistConnErr(err, conn)
 	return stream, err
@@ -174,6 +179,7 @@ func (t *Transport) Ping(addr string) error {
 		return err
 	}
 	err = conn.Ping()
+	conn.release()
 	conn.lastTime = t.now
 	checkPersistConnErr(err, conn)
 	return err
@@ -196,6 +202,11 @@ func (t *Transport) getConn(addr string) (pc *persistConn, err error) {
 	}
 	t.connsMu.Lock()
 	defer t.connsMu.Unlock()
+	defer func() {
+		if err == nil && pc != nil {
+			atomic.AddInt32(&pc.uses, 1)
+		}
+	}()
 	if !t.running {
 		t.once.Do(func() {
 			t.idleConns = make(map[string]*connQueue)
@@ -318,7 +329,7 @@ func (t *Transport) run() {
 				length := len(cs.Conns)
 				for i := 0; i < length; i++ {
 					pc := cs.Conns[i]
-					if pc.lastTime.Add(t.KeepAlive).Before(time.Now()) && pc.NumCalls() == 0 {
+					if pc.lastTime.Add(t.KeepAlive).Before(time.Now()) && pc.unused() {
 						cs.Delete(i)
 						i--
 						length--
@@ -370,7 +381,7 @@ func (t *Transport) CloseIdleConnections() {
 		length := len(cs.Conns)
 		for i := 0; i < length; i++ {
 			pc := cs.Conns[i]
-			if pc.NumCalls() == 0 {
+			if pc.unused() {
 				cs.Delete(i)
 				i--
 				length--
@@ -430,6 +441,21 @@ type persistConn struct {
 	mu       sync.Mutex
 	alive    bool
 	lastTime time.Time
+	// uses counts the calls that have obtained the connection from getConn
+	// and have not yet handed their request to it. It is incremented under
+	// connsMu, so housekeeping never sees a connection as unused while a
+	// call is about to be sent on it.
+	uses int32
+}
+
+// unused reports whether no call is outstanding or about to be sent.
+func (pc *persistConn) unused() bool {
+	return atomic.LoadInt32(&pc.uses) == 0 && pc.NumCalls() == 0
+}
+
+// release undoes the reservation made by getConn.
+func (pc *persistConn) release() {
+	atomic.AddInt32(&pc.uses, -1)
 }
 
 // usable reports whether the connection may be handed to a new call. Go and
